@@ -65,7 +65,19 @@ RULE = ('cases are of three kinds. func: (frequency grid, amplitude vector, targ
         'history; A, B (same shape), B1 (shorter), B2 (same shape, grid x 1.37), A on the function form and A, B, A with fresh objects; '
         'bands within 1e-3 (relative) of 5 and 100 incl. nextafter; ratios 1e-6..1e-3, 0.999, 0.9995 (sig ratios 1.0005, 1.001, 1000, 2000) '
         'with a Gaussian-pulse record whose smoothed spectrum spans the decades that make them decide; silent (all-zero) and strictly '
-        'one-signed records and spectra. large: 12 (quick) / 96 '
+        'one-signed records and spectra. round 5: every scalar argument in every scalar form - band as Python int / float, np.float64 / '
+        'np.float32 / np.int64 / np.int32, 0-d float64 / float32 / int64 array (function forms, gen_smooth_fa_spectrum, generate_smooth_fa_spectrum); '
+        'the ratio of the four bandwidth functions as Python float / int, np.float64 / np.float32 / np.int64, 0-d float64 / float32 array '
+        '(a single-precision form that would round the ratio out of its domain falls back to the Python float); dt of the object as Python '
+        'float, np.float64, np.float32, 0-d array; n_points as np.int64 / 0-d int array; 0-d arrays are snapshotted at entry by the monitors '
+        'and by the driver like any other array and the SAME object is passed to all calls of a case. bool dtype: on/off amplitude spectra '
+        '(random and one rectangular pass band), on/off records (bool ndarray, list of Python bools), bool custom matrices. Settings: the '
+        'smoothing frequencies of BOTH live objects are compared bit for bit before / after every history operation that does not set them '
+        '(reads, regenerations, bandwidth / custom-matrix calls, every value mutator, assignments, Fourier regeneration, clear_cache, refused '
+        'calls, copies) and a protocol copy must hold those of its source; targets below the first and above the last Fourier frequency '
+        '(beyond the Nyquist frequency) are part of every target draw. Ownership: the arrays returned by calc_smooth_fa_spectrum, the '
+        'deprecated alias, calc_smoothing_matrix_konno_1998, the custom-matrix form, get_sig_freq_range and the function form on the '
+        'object\'s own arrays are overwritten by the driver and the same call is repeated with the same arguments. large: 12 (quick) / 96 '
         '(thorough) problems with n_fa * n_targets next to 2**18 .. 2**23 (thorough 2**24), just below / just above / 1.4 x each '
         'power of two, as many targets on a 1-8k-bin grid, as the None default, or as a long spectrum with ~50 targets, plus '
         'a 170000-sample Signal with the default 50 smoothing frequencies; there the scalar oracle judges first, last and '
@@ -99,6 +111,14 @@ ASSUMPTIONS = ['frequencies and targets are finite, positive real ndarrays (a si
                'buffer with its original by definition and is followed only by value mutators that rebind (reset_values)',
                'gen_smooth_fa_spectrum(smooth_fa_freqs=<list or tuple>) is in domain (the setters and the constructor accept sequences): '
                'before fix F43 it raised TypeError after storing the list and kept serving the old spectrum (found by this monitor)',
+               'numeric arguments are judged by their VALUE as passed at call entry, float(x): a np.float32 band / ratio / dt is the rounded '
+               'value, not the decimal the driver started from; the threshold of the bandwidth functions is max * float(ratio) in double precision',
+               'a bool amplitude spectrum / record / custom matrix stands for the numbers 0 and 1',
+               'the array handed out by the cached PROPERTY Signal.smooth_fa_spectrum is the object\'s own cache by design (like .values, DESIGN 5 '
+               'C19 (f)): the driver never writes into it; every array returned by a FUNCTION belongs to the caller and is overwritten',
+               'checklist 33: the bandwidth oracle has one two-way acceptance only - a sample within 8 ulp of the rounded threshold (counted as '
+               'an observation, 7 of ~3700 quick-tier bandwidth verdicts); it is a rounding allowance per sample, not a family of conventions, '
+               'and the ordered / brackets-peak clauses do not use it',
                'oracle vf/oracles/konno.py is correct (math.log10/sin scalar loop, fsum)']
 RTOL = 1e-9
 RTOL_F32 = 2e-4
@@ -141,7 +161,7 @@ def _is_sig(a):
 def _sig_state(s):
     """Snapshot of everything a smoothing call may read, taken without triggering any generation."""
     cf, cs = bool(s._cached_fa), bool(s._cached_smooth_fa)
-    return {'values': np.array(s._values, copy=True), 'dt': s._dt, 'cached_fa': cf,
+    return {'values': np.array(s._values, copy=True), 'dt': _snap(s._dt), 'cached_fa': cf,
             'fa': np.array(s._fa_spectrum, copy=True) if cf else None, 'ff': np.array(s._fa_freqs, copy=True) if cf else None,
             'tg': np.array(s._smooth_fa_freqs, copy=True), 'cached_s': cs,
             'sm': np.array(s._smooth_fa_spectrum, copy=True) if cs else None, 'serial': _SERIAL[0],
@@ -152,7 +172,7 @@ def _sig_changed(s, st, smooth_may_regenerate, targets_may_change):
     bad = []
     if not _same(np.asarray(s._values), st['values']):
         bad.append('values')
-    if s._dt != st['dt']:
+    if not bool(np.all(np.asarray(s._dt) == np.asarray(st['dt']))):       # (dt may be a 0-d array: snapshot, not reference)
         bad.append('dt')
     if st['cached_fa'] and not (s._cached_fa and _same(np.asarray(s._fa_spectrum), st['fa'])
                                 and _same(np.asarray(s._fa_freqs), st['ff'])):
@@ -234,8 +254,10 @@ def _domain(ctx, freqs, spec, targets, band, who):
         a = None
         if spec is not None:
             a = np.asarray(spec)
-            if a.shape != f.shape or a.dtype.kind not in 'fiuc':
+            if a.shape != f.shape or a.dtype.kind not in 'fiucb':
                 raise ValueError
+            if a.dtype.kind == 'b':
+                a = a.astype(float)                 # an on/off spectrum: |True| = 1, |False| = 0
             if a.dtype.kind in 'iu':
                 a = a.astype(np.int64) if a.dtype.kind == 'i' else a.astype(np.uint64)
         if f[0] == 0:
@@ -449,7 +471,7 @@ def _post_calc(args, kwargs, result, pre):
     freqs = args[0] if len(args) > 0 else kwargs['fa_frequencies']
     spec = args[1] if len(args) > 1 else kwargs['fa_spectrum']
     targets = args[2] if len(args) > 2 else kwargs.get('smooth_fa_frequencies')
-    band = args[3] if len(args) > 3 else kwargs.get('band', 40)
+    band = _sn(pre, args[3] if len(args) > 3 else kwargs.get('band', 40))
     f, a, t = _sn(pre, freqs), _sn(pre, spec), _sn(pre, targets)
     raw = _raw_func(f, a, t, band) if CASE is None else None
     _purity_args(CTX, 'calc_smooth_fa_spectrum', pre, raw)
@@ -461,7 +483,7 @@ def _post_generate(args, kwargs, result, pre):
     targets = args[0] if len(args) > 0 else kwargs['smooth_fa_frequencies']
     freqs = args[1] if len(args) > 1 else kwargs['fa_frequencies']
     spec = args[2] if len(args) > 2 else kwargs['fa_spectrum']
-    band = args[3] if len(args) > 3 else kwargs.get('band', 40)
+    band = _sn(pre, args[3] if len(args) > 3 else kwargs.get('band', 40))
     f, a, t = _sn(pre, freqs), _sn(pre, spec), _sn(pre, targets)
     raw = _raw_func(f, a, t, band) if CASE is None else None
     _purity_args(CTX, 'generate_smooth_fa_spectrum', pre, raw)
@@ -475,7 +497,7 @@ def _post_matrix(args, kwargs, result, pre):
     at = 'calc_smoothing_matrix_konno_1998'
     freqs = args[0] if len(args) > 0 else kwargs['fa_frequencies']
     targets = args[1] if len(args) > 1 else kwargs.get('smooth_fa_frequencies')
-    band = args[2] if len(args) > 2 else kwargs.get('band', 40)
+    band = _sn(pre, args[2] if len(args) > 2 else kwargs.get('band', 40))
     freqs, targets = _sn(pre, freqs), _sn(pre, targets)
     raw = None
     if CASE is None:
@@ -540,6 +562,9 @@ def _post_custom(args, kwargs, result, pre):
         ctx.observe('out-of-domain:%s' % at)
         return
     spec = np.asarray(ent[1])
+    if mm.dtype.kind == 'b':
+        mm = mm.astype(float)                       # an on/off (boxcar) matrix: True weighs 1
+        ctx.observe('custom-matrix-of-bool-dtype')
     if mm.ndim != 2 or mm.shape[0] != len(spec) - 1 or mm.dtype.kind not in 'fiu' or not np.all(np.isfinite(mm)) \
             or not np.all(np.isfinite(spec)):
         ctx.observe('out-of-domain:%s' % at)
@@ -562,26 +587,32 @@ def _post_custom(args, kwargs, result, pre):
 def _pre_gen_smooth(args, kwargs):
     self = args[0]
     given = args[1] if len(args) > 1 else kwargs.get('smooth_fa_freqs')
-    return {'st': _sig_state(self), 'given': (given, _snap(given))}
+    band = args[2] if len(args) > 2 else kwargs.get('band', 40)
+    return {'st': _sig_state(self), 'given': (given, _snap(given)), 'band': (band, _snap(band))}
+
+
+def _band_kept(pre):
+    """a 0-d array is mutable: the band the caller passed is judged, and must still be what it was, bit for bit."""
+    b, bs = pre['band']
+    return [] if _same(b, bs) else ['the band argument (a 0-d array, changed in place)']
 
 
 def _post_gen_smooth(args, kwargs, result, pre):
-    band = args[2] if len(args) > 2 else kwargs.get('band', 40)
     given, gsnap = pre['given']
-    _judge_generation(args[0], pre['st'], given, gsnap, band, 'Signal.gen_smooth_fa_spectrum')
+    _judge_generation(args[0], pre['st'], given, gsnap, pre['band'][1], 'Signal.gen_smooth_fa_spectrum', _band_kept(pre))
 
 
 def _pre_generate_method(args, kwargs):
-    return {'st': _sig_state(args[0])}
+    band = args[1] if len(args) > 1 else kwargs.get('band', 40)
+    return {'st': _sig_state(args[0]), 'band': (band, _snap(band))}
 
 
 def _post_generate_method(args, kwargs, result, pre):
     """Signal.generate_smooth_fa_spectrum(band): the stored spectrum must be the one for the band that was ASKED for."""
-    band = args[1] if len(args) > 1 else kwargs.get('band', 40)
-    _judge_generation(args[0], pre['st'], None, None, band, 'Signal.generate_smooth_fa_spectrum')
+    _judge_generation(args[0], pre['st'], None, None, pre['band'][1], 'Signal.generate_smooth_fa_spectrum', _band_kept(pre))
 
 
-def _judge_generation(self, st, given, gsnap, band, at):
+def _judge_generation(self, st, given, gsnap, band, at, changed_args=()):
     ctx = CTX
     got = self._smooth_fa_spectrum
     _SERIAL[0] += 1
@@ -590,7 +621,7 @@ def _judge_generation(self, st, given, gsnap, band, at):
     use = st['tg'] if given is None else gsnap
     raw = _raw_sig(st, band, targets=np.asarray(use), how='gen_arg' if given is not None else 'setter')
     _purity_sig(ctx, at, self, st, True, given is not None, raw,
-                extra=[] if _same(given, gsnap) else ['the smooth_fa_freqs argument'])
+                extra=([] if _same(given, gsnap) else ['the smooth_fa_freqs argument']) + list(changed_args))
     ent = _entry_fa(st)
     if ent is None:
         ctx.observe('out-of-domain:%s' % at)
@@ -732,6 +763,7 @@ def _check_band(ctx, who, asig, pre, ratio, ratio_eff, lo, hi, prefix):
         ctx.observe('band-oracle-fallback(unmonitored generation)')
         s = np.asarray(asig._smooth_fa_spectrum)
     _purity_sig(ctx, who, asig, st, not st['cached_s'], False, raw, extra=extra)
+    _purity_args(ctx, who, pre, raw)            # a ratio given as 0-d array is still what it was
     s = np.asarray(s, dtype=float)
     f = np.asarray(st['tg'], dtype=float)
     if s.size == 0 or s.shape != f.shape or not np.all(np.isfinite(s)) or not (0 <= ratio_eff < 1):
@@ -744,6 +776,10 @@ def _check_band(ctx, who, asig, pre, ratio, ratio_eff, lo, hi, prefix):
         ctx.observe('targets-not-ascending:%s' % who)
         return
     first_ok, last_ok, peaks = O.band_limit_candidates(s.tolist(), ratio_eff)
+    if len(first_ok) > 1 or len(last_ok) > 1:
+        # (checklist 33) the only two-way acceptance of this oracle: a sample within 8 ulp of the rounded threshold; counted so
+        # that the evidence shows how rarely a verdict rests on it (flat spectra with a ratio within 8 ulp of 1)
+        ctx.observe('bandwidth-limit-with-a-sample-within-8ulp-of-the-threshold(either side accepted)')
     wit = lambda: _wit(who, raw, got=(lo, hi), ratio=ratio, smoothed=s, targets=f)
     fpk = [float(f[i]) for i in peaks]
     if 0 in peaks or len(f) - 1 in peaks:
@@ -785,31 +821,41 @@ def _check_band(ctx, who, asig, pre, ratio, ratio_eff, lo, hi, prefix):
               % (who, ratio, lo, hi, [float(f[i]) for i in first_ok], [float(f[i]) for i in last_ok]))
 
 
-def _ratio_of(args, kwargs, default):
-    return args[1] if len(args) > 1 else kwargs.get('ratio', default)
+def _ratio_of(args, kwargs, default, pre=None):
+    """the ratio the caller passed, as it was at ENTRY (a 0-d array is mutable)"""
+    return _sn(pre, args[1] if len(args) > 1 else kwargs.get('ratio', default))
+
+
+def _eff(r):
+    """ratio as the Python float the statement's threshold ratio*max is formed with (np.float64(max) * np.float32(ratio) is a
+    double-precision product of the two values; Python float * np.float32 would be a single-precision one)"""
+    try:
+        return float(r)
+    except (TypeError, ValueError):
+        return -1.0
 
 
 def _post_bw_freqs(args, kwargs, result, pre):
     asig = args[0] if args else kwargs['asig']
-    r = _ratio_of(args, kwargs, 0.707)
-    _check_band(CTX, 'calc_bandwidth_freqs', asig, pre, r, r, float(result[0]), float(result[1]), 'bandwidth')
+    r = _ratio_of(args, kwargs, 0.707, pre)
+    _check_band(CTX, 'calc_bandwidth_freqs', asig, pre, r, _eff(r), float(result[0]), float(result[1]), 'bandwidth')
 
 
 def _post_bw_fmin(args, kwargs, result, pre):
     asig = args[0] if args else kwargs['asig']
-    r = _ratio_of(args, kwargs, 0.707)
-    _check_band(CTX, 'calc_bandwidth_f_min', asig, pre, r, r, float(result), None, 'bandwidth')
+    r = _ratio_of(args, kwargs, 0.707, pre)
+    _check_band(CTX, 'calc_bandwidth_f_min', asig, pre, r, _eff(r), float(result), None, 'bandwidth')
 
 
 def _post_bw_fmax(args, kwargs, result, pre):
     asig = args[0] if args else kwargs['asig']
-    r = _ratio_of(args, kwargs, 0.707)
-    _check_band(CTX, 'calc_bandwidth_f_max', asig, pre, r, r, None, float(result), 'bandwidth')
+    r = _ratio_of(args, kwargs, 0.707, pre)
+    _check_band(CTX, 'calc_bandwidth_f_max', asig, pre, r, _eff(r), None, float(result), 'bandwidth')
 
 
 def _post_sigrange(args, kwargs, result, pre):
     asig = args[0] if args else kwargs['asig']
-    r = _ratio_of(args, kwargs, 15)
+    r = _ratio_of(args, kwargs, 15, pre)
     try:
         eff = 1.0 / float(r)
     except (ZeroDivisionError, TypeError, ValueError):
@@ -878,7 +924,7 @@ def draw_band(rng):
     u = rng.random()
     if u < 0.12:
         return None, 'py'
-    form = ['py', 'py', 'py', 'np64', 'npint', '0d'][int(rng.integers(6))]
+    form = BAND_FORMS[int(rng.integers(len(BAND_FORMS)))]
     if u < 0.20:
         return BAND_EDGES[int(rng.integers(len(BAND_EDGES)))], form          # within 1e-3 (relative) of the ends of [5, 100]
     if u < 0.55:
@@ -887,16 +933,56 @@ def draw_band(rng):
     return float(rng.uniform(5, 100)), form
 
 
+BAND_FORMS = ['py', 'py', 'py', 'np64', 'npint', '0d', '0d', 'np32', 'npint32', '0dint', '0d32']
+RATIO_FORMS = ['py', 'py', 'py', 'np64', 'np32', '0d', '0d', 'int', 'npint', '0d32']
+DT_FORMS = ['py', 'py', 'py', 'py', 'np64', 'np32', '0d', '0d']
+
+
 def band_obj(band, form):
+    """The scalar form of a numeric argument (band, ratio, dt): Python float / int, numpy scalars of either width, 0-d arrays
+    (mutable: the monitors snapshot them at entry like any other array). The single-precision forms round the VALUE; the
+    monitors judge against float(<what the caller passed>). Integer forms only where the value is an integer."""
     if band is None:
         return None
+    whole = abs(float(band)) < 2 ** 31 and float(band) == int(band)        # (sig ratios go up to 1e300)
     if form == 'np64':
         return np.float64(band)
-    if form == 'npint' and float(band) == int(band):
+    if form == 'np32':
+        return np.float32(band)
+    if form == 'npint' and whole:
         return np.int64(int(band))
+    if form == 'npint32' and whole:
+        return np.int32(int(band))
+    if form == 'int' and whole:
+        return int(band)
     if form == '0d':
         return np.array(float(band))
+    if form == '0d32':
+        return np.array(float(band), dtype=np.float32)
+    if form == '0dint' and whole:
+        return np.array(int(band))
     return band
+
+
+def ratio_obj(r, form, sig=False):
+    """Scalar form of a bandwidth ratio; falls back to the Python float when the form would leave the domain of the function
+    (calc_bandwidth_*: [0, 1); get_sig_freq_range: (1, inf)) by single-precision rounding."""
+    if r is None:
+        return None
+    o = band_obj(r, form)
+    try:
+        v = float(o)
+    except (TypeError, ValueError):
+        return r
+    ok = (1 < v < float('inf')) if sig else (0 <= v < 1)
+    return o if ok else r
+
+
+def scalar_in_range(obj, lo, hi, hi_open=False):
+    """A single-precision form may round a value next to the end of its admissible range onto / across that end: such a form is
+    replaced by the plain Python value (the class 'within 1e-3 of the end' is driven in double precision)."""
+    v = float(obj)
+    return lo <= v and (v < hi if hi_open else v <= hi)
 
 
 def view_of(arr, v):
@@ -1066,7 +1152,7 @@ def int_spectrum(rng, points, dtype, with_min=False):
 
 
 SYNTH = ['const', 'spike', 'spike-dyn', 'spike-dyn', 'decay', 'max-first', 'max-last', 'plateau-ends', 'signed', 'complex', 'c64', 'f32', 'loggrid',
-         'int', 'int', 'int-small', 'one-signed-or-silent']
+         'int', 'int', 'int-small', 'one-signed-or-silent', 'bool']
 
 
 def gen_func_case(rng, long_n=None):
@@ -1157,6 +1243,13 @@ def gen_func_case(rng, long_n=None):
                 src += ':with-dtype-min'
         elif src == 'int-small':
             spec = rng.integers(-9, 10, size=points).astype(np.int64)
+        elif src == 'bool':
+            # an on/off spectrum (rectangular pass bands) in numpy's bool dtype
+            spec = rng.random(points) < float(rng.uniform(0.1, 0.9))
+            if rng.random() < 0.5:
+                k0 = int(rng.integers(0, points))
+                spec = np.zeros(points, dtype=bool)
+                spec[k0:k0 + max(1, points // 3)] = True
         elif src == 'one-signed-or-silent':
             v = int(rng.integers(4))
             if v == 0:
@@ -1230,7 +1323,7 @@ def gen_func_case(rng, long_n=None):
     return case, 'func:%s:%s:%s:%s' % (src, grid_dtype, 'zero-bin' if with_zero else 'no-zero-bin', tkind)
 
 
-VALUE_FORMS = [None, None, None, None, 'list', 'tuple', 'intlist', 'f32', 'i64', 'i16', 'u8', 'readonly', 'stride2']
+VALUE_FORMS = [None, None, None, None, 'list', 'tuple', 'intlist', 'f32', 'i64', 'i16', 'u8', 'readonly', 'stride2', 'bool', 'boollist']
 
 
 def draw_value_form(rng, rcls):
@@ -1250,6 +1343,11 @@ def values_in_form(x, form):
         return tuple(float(v) for v in x)
     if form == 'f32':
         return np.asarray(x, dtype=np.float32)
+    if form in ('bool', 'boollist'):
+        # an on/off record (bool dtype / list of Python bools): the library casts it to float like the integer kinds
+        xa = np.asarray(x, dtype=float)
+        on = xa > float(np.median(xa))
+        return on if form == 'bool' else [bool(v) for v in on]
     m = float(np.max(np.abs(x))) or 1.0
     if form == 'intlist':
         return [int(v) for v in np.round(np.asarray(x) / m * 1000)]
@@ -1323,11 +1421,16 @@ def gen_signal_case(rng, long_n=None, default_targets=False):
             'values_form': draw_value_form(rng, rcls) if long_n is None else None,
             'targets': targets, 'targets_form': draw_target_form(rng) if how != 'gen_arg' else [None, 'readonly', 'stride2'][int(rng.integers(3))],
             'range': rng_lim, 'range_form': ['tuple', 'list', 'array'][int(rng.integers(3))], 'n_points': int(rng.choice([1, 1, 2, 2, 7, 30, 31, 32, 33, 50, 64, 65])),
-            'band': draw_band(rng)[0], 'band_form': ['py', 'np64', '0d'][int(rng.integers(3))],
+            'band': draw_band(rng)[0], 'band_form': BAND_FORMS[int(rng.integers(len(BAND_FORMS)))],
             'ratio': draw_ratio(rng), 'sig_ratio': draw_sig_ratio(rng), 'style': ['pos', 'kw'][int(rng.integers(2))],
-            'matrix_form': [None, None, 'f32', 'fortran', 'readonly', 'nested-list'][int(rng.integers(6))],
+            'ratio_form': RATIO_FORMS[int(rng.integers(len(RATIO_FORMS)))], 'sig_ratio_form': RATIO_FORMS[int(rng.integers(len(RATIO_FORMS)))],
+            'dt_form': DT_FORMS[int(rng.integers(len(DT_FORMS)))] if long_n is None else 'py',
+            'n_points_form': ['py', 'py', 'npint', '0dint'][int(rng.integers(4))],
+            'matrix_form': [None, None, 'f32', 'fortran', 'readonly', 'nested-list', 'bool'][int(rng.integers(7))],
             'random_matrix_seed': int(rng.integers(1 << 30)) if rng.random() < 0.3 else None,
             'second_seed': int(rng.integers(1 << 30)), 'reject_probes': bool(rng.random() < 0.1)}
+    if case['matrix_form'] == 'bool' and case['random_matrix_seed'] is None:
+        case['random_matrix_seed'] = int(rng.integers(1 << 30))
     small = (case['ratio'] is not None and 0 < case['ratio'] <= 1e-2) or (case['sig_ratio'] is not None and 100 <= case['sig_ratio'] <= 1e13)
     if long_n is None and small and n >= 16 and rng.random() < 0.8:
         # ratios next to the lower end of [0, 1) decide something only when the smoothed spectrum spans as many decades: a short
@@ -1451,10 +1554,11 @@ def gen_history_case(rng):
         elif name == 'bw':
             op['fn'] = ['freqs', 'f_min', 'f_max', 'sigrange'][int(rng.integers(4))]
             op['ratio'] = draw_sig_ratio(rng) if op['fn'] == 'sigrange' else draw_ratio(rng)
+            op['ratio_form'] = RATIO_FORMS[int(rng.integers(len(RATIO_FORMS)))]
             op['style'] = ['pos', 'kw', 'allkw'][int(rng.integers(3))]
         elif name == 'custom':
             op['seed'] = None if rng.random() < 0.6 else int(rng.integers(1 << 30))
-            op['form'] = [None, 'f32', 'fortran', 'readonly', 'nested-list'][int(rng.integers(5))]
+            op['form'] = [None, 'f32', 'fortran', 'readonly', 'nested-list', 'bool'][int(rng.integers(6))]
             op['style'] = ['pos', 'kw'][int(rng.integers(2))]
         elif name in ('twin', 'assign', 'refused', 'reset_nonfinite'):
             fill_op(rng, op, n, grid)
@@ -1500,7 +1604,7 @@ def gen_protocol_case(rng):
     def op_bw():
         fn = ['freqs', 'f_min', 'f_max', 'sigrange'][int(rng.integers(4))]
         return {'op': 'bw', 'fn': fn, 'ratio': draw_sig_ratio(rng) if fn == 'sigrange' else draw_ratio(rng),
-                'style': ['pos', 'kw', 'allkw'][int(rng.integers(3))]}
+                'ratio_form': RATIO_FORMS[int(rng.integers(len(RATIO_FORMS)))], 'style': ['pos', 'kw', 'allkw'][int(rng.integers(3))]}
 
     def op_reset():
         m = [n, max(3, n // 2), n + int(rng.integers(1, 40))][int(rng.integers(3))]
@@ -1599,6 +1703,28 @@ def _prec_rtol(fdtype, tdtype, sdtype):
     return RTOL
 
 
+OWN = 'ownership.same-call-after-overwriting-the-result==first'
+KEPT = 'settings.smoothing-frequencies-kept'
+
+
+def _scribble(r):
+    """Overwrite every entry of an array result the caller received (it belongs to the caller); False when it cannot be written."""
+    if not isinstance(r, np.ndarray) or not r.flags.writeable or r.size == 0:
+        CTX.observe('result-not-overwritten(%s)' % ('read-only array' if isinstance(r, np.ndarray) and r.size else type(r).__name__))
+        return False
+    r[...] = (r.dtype.type(True) if r.dtype.kind == 'b' else -7.25) if r.dtype.kind != 'c' else complex(-7.25, 3.5)
+    return True
+
+
+def _same_again(ctx, what, first, again):
+    again = np.asarray(again)
+    ctx.check(again.dtype == first.dtype and again.shape == first.shape and again.tobytes() == first.tobytes(), OWN,
+              lambda: _wit(what, first=first if first.size <= 4096 else first.ravel()[:4096],
+                           again=again if again.size <= 4096 else again.ravel()[:4096]),
+              '%s: after the caller overwrote the array it had received, the same call with the same arguments gave a different result '
+              '(the result was handed out by reference from a table the library keeps)' % what)
+
+
 def run_func_case(eqsig, ctx, c):
     lng = c.get('long')
     if lng:
@@ -1616,7 +1742,7 @@ def run_func_case(eqsig, ctx, c):
     band = band_obj(c['band'], c.get('band_form', 'py'))
     style = c.get('style', 'mixed')
     omit = targets is None and c.get('none_style', 'omit') == 'omit'
-    master = [_snap(freqs), _snap(spec), _snap(targets)]
+    master = [_snap(freqs), _snap(spec), _snap(targets), _snap(band)]
 
     def direct_args(sp):
         if omit:
@@ -1651,7 +1777,14 @@ def run_func_case(eqsig, ctx, c):
     rt = _prec_rtol(np.asarray(freqs).dtype, np.asarray(freqs if targets is None else targets).dtype, sarr.dtype)
     bkw = {} if band is None else {'band': band}
     # deprecated alias
+    alias_call = None
     if targets is not None:
+        if style == 'kw':
+            alias_call = ((), dict(smooth_fa_frequencies=targets, fa_frequencies=freqs, fa_spectrum=spec, **bkw))
+        elif style == 'pos' and band is not None:
+            alias_call = ((targets, freqs, spec, band), {})
+        else:
+            alias_call = ((targets, freqs, spec), dict(bkw))
         if style == 'kw':
             ok, r = _call(ctx, 'alias.generate==weighted-mean', 'generate_smooth_fa_spectrum', eqsig.generate_smooth_fa_spectrum,
                           smooth_fa_frequencies=targets, fa_frequencies=freqs, fa_spectrum=spec, **bkw)
@@ -1664,6 +1797,11 @@ def run_func_case(eqsig, ctx, c):
         if ok:
             ctx.check(np.array_equal(np.asarray(r), base), 'relation.alias==direct', lambda: _wit('relation.alias', got=np.asarray(r), direct=base),
                       'generate_smooth_fa_spectrum differs from calc_smooth_fa_spectrum on the same inputs')
+            if _scribble(r):
+                a_, k_ = alias_call
+                ok, r2 = _call(ctx, 'alias.generate==weighted-mean', 'generate_smooth_fa_spectrum', eqsig.generate_smooth_fa_spectrum, *a_, **k_)
+                if ok:
+                    _same_again(ctx, 'generate_smooth_fa_spectrum', base, r2)
     # a different input of the same shape processed while the first result is held
     if sarr.dtype.kind in 'fc':
         other = (sarr[::-1] * sarr.dtype.type(1.5)).copy()
@@ -1721,6 +1859,14 @@ def run_func_case(eqsig, ctx, c):
                 ctx.check(np.asarray(m_held).tobytes() == m_copy.tobytes(), 'state.held-result-unchanged',
                           lambda: _wit('state.held-matrix', first=m_copy, now=np.asarray(m_held)),
                           'the first smoothing matrix changed while a second one of the same shape was computed')
+        if not lng and m_copy.size <= 2 ** 16 and _scribble(m_held):
+            # the smoothing matrix belongs to the caller: overwritten, then the same call once more
+            if omit:
+                ok3, m3 = _call(ctx, 'matrix==window/sum', 'calc_smoothing_matrix_konno_1998', eqsig.calc_smoothing_matrix_konno_1998, freqs, **bkw)
+            else:
+                ok3, m3 = _call(ctx, 'matrix==window/sum', 'calc_smoothing_matrix_konno_1998', eqsig.calc_smoothing_matrix_konno_1998, freqs, targets, **bkw)
+            if ok3:
+                _same_again(ctx, 'calc_smoothing_matrix_konno_1998', m_copy, m3)
     # scaling
     alpha = c.get('alpha')
     if alpha is not None and sarr.dtype.kind in 'fc':
@@ -1757,9 +1903,14 @@ def run_func_case(eqsig, ctx, c):
             ctx.check(tol.close(r, exp, scale=abs(cv), rtol=crt), 'relation.constant-reproduced',
                       lambda: _wit('relation.constant', got=r, const=cv),
                       'constant spectrum %r not reproduced: %s' % (cv, tol.describe(r, exp, scale=abs(cv), rtol=crt)))
+    # a result belongs to the caller: the array of the first call is overwritten, the same call repeated
+    if _scribble(held):
+        ok, again = direct(spec)
+        if ok:
+            _same_again(ctx, 'calc_smooth_fa_spectrum', base, again)
     # the arguments of the whole case are still what they were before the first call
-    now = [freqs, spec, targets]
-    bad = [n for n, a, s in zip(('freqs', 'spec', 'targets'), now, master) if not _same(a, s)]
+    now = [freqs, spec, targets, band]
+    bad = [n for n, a, s in zip(('freqs', 'spec', 'targets', 'band'), now, master) if not _same(a, s)]
     ctx.check(not bad, 'purity.arguments-unchanged', lambda: _wit('case-level purity', changed=bad),
               'arguments %s differ from their values before the first call of the case' % bad)
 
@@ -1789,6 +1940,20 @@ def _konno_custom(eqsig, ctx, s, b_eff, form, style, v_ref, scale, rt):
     else:
         ok, r = _call(ctx, 'custom-matrix==sum|A_i|M_ij(i>=1)', 'calc_smooth_fa_spectrum_w_custom_matrix',
                       eqsig.calc_smooth_fa_spectrum_w_custom_matrix, s, m)
+    if ok and isinstance(r, np.ndarray):
+        first = np.array(r, copy=True)
+        held_obj = s._smooth_fa_spectrum if s._cached_smooth_fa else None
+        held_cp = None if held_obj is None else np.array(held_obj, copy=True)
+        if _scribble(r):
+            ok4, r4 = _call(ctx, 'custom-matrix==sum|A_i|M_ij(i>=1)', 'calc_smooth_fa_spectrum_w_custom_matrix',
+                            eqsig.calc_smooth_fa_spectrum_w_custom_matrix, s, m)
+            if ok4:
+                _same_again(ctx, 'calc_smooth_fa_spectrum_w_custom_matrix', first, r4)
+            if held_obj is not None:
+                ctx.check(np.asarray(held_obj).tobytes() == held_cp.tobytes(), 'state.held-result-unchanged',
+                          lambda: _wit('state.object-cache-after-overwriting-a-function-result', first=held_cp, now=np.asarray(held_obj)),
+                          'overwriting the array returned by the custom-matrix form changed the smoothed spectrum the object holds')
+        r = first
     if ok and v_ref is not None:
         r = np.asarray(r)
         rr = max(rt, 1e-5) if form == 'f32' else rt
@@ -1798,12 +1963,15 @@ def _konno_custom(eqsig, ctx, s, b_eff, form, style, v_ref, scale, rt):
                   % tol.describe(r, v_ref, scale=scale, rtol=rr))
 
 
-def _bandwidth_calls(eqsig, ctx, s, ratio, sig_ratio, style, fns=('freqs', 'f_min', 'f_max', 'sigrange')):
+def _bandwidth_calls(eqsig, ctx, s, ratio, sig_ratio, style, fns=('freqs', 'f_min', 'f_max', 'sigrange'), forms=('py', 'py')):
     table = {'freqs': ('calc_bandwidth_freqs', eqsig.im.calc_bandwidth_freqs), 'f_min': ('calc_bandwidth_f_min', eqsig.im.calc_bandwidth_f_min),
              'f_max': ('calc_bandwidth_f_max', eqsig.im.calc_bandwidth_f_max), 'sigrange': ('get_sig_freq_range', eqsig.get_sig_freq_range)}
     for key in fns:
         name, fn = table[key]
-        r = sig_ratio if key == 'sigrange' else ratio
+        # a fresh scalar object per call (Python float / int, numpy scalar of either width, 0-d array)
+        r = ratio_obj(sig_ratio, forms[1], sig=True) if key == 'sigrange' else ratio_obj(ratio, forms[0])
+        if r is not None and type(r) is not float:
+            ctx.observe('ratio-form:%s' % (type(r).__name__ + ('(0-d %s)' % r.dtype if isinstance(r, np.ndarray) else '')))
         clause = 'sigrange==first/last above max/ratio' if key == 'sigrange' else 'bandwidth==first/last above ratio*max'
         if r is None:
             a, k = ((s,), {}) if style != 'allkw' else ((), {'asig': s})
@@ -1813,7 +1981,13 @@ def _bandwidth_calls(eqsig, ctx, s, ratio, sig_ratio, style, fns=('freqs', 'f_mi
             a, k = (), {'asig': s, 'ratio': r}
         else:
             a, k = (s,), {'ratio': r}
-        _call(ctx, clause, name, fn, *a, **k)
+        ok, res = _call(ctx, clause, name, fn, *a, **k)
+        if ok and key == 'sigrange' and isinstance(res, np.ndarray):
+            first = np.array(res, copy=True)
+            if _scribble(res):
+                ok, res2 = _call(ctx, clause, name, fn, *a, **k)
+                if ok:
+                    _same_again(ctx, 'get_sig_freq_range', first, res2)
 
 
 def _smooth_ok_for_bandwidth(ctx, s):
@@ -1868,24 +2042,30 @@ def run_signal_case(eqsig, ctx, c):
     targets = targets_in_form(c.get('targets'), c.get('targets_form'))
     t_master = _snap(targets)
     b_eff = 40 if band is None else band
+    b_master = _snap(band)
     style = c.get('style', 'kw')
+    dt = band_obj(c['dt'], c.get('dt_form', 'py'))          # Python float, numpy scalar or (mutable) 0-d array
+    dt_master = _snap(dt)
+    if type(dt) is not float:
+        ctx.observe('dt-form:%s' % (type(dt).__name__ + ('(0-d %s)' % dt.dtype if isinstance(dt, np.ndarray) else '')))
     if len(v_master) < 3:
         # records of 1 or 2 samples have no non-zero-frequency bin: the premise of the statement is empty
         _probe_rejected(ctx, 'record-of-%d-sample(s)' % len(v_master), lambda: cls(values, c['dt']).smooth_fa_spectrum)
         return
     try:
         if how == 'ctor':
-            s = cls(values, c['dt'], smooth_fa_freqs=targets)
+            s = cls(values, dt, smooth_fa_freqs=targets)
         elif how == 'range':
-            s = cls(values, c['dt'], smooth_freq_range=_limits(c['range'], c.get('range_form', 'tuple')))
+            s = cls(values, dt, smooth_freq_range=_limits(c['range'], c.get('range_form', 'tuple')))
         else:
-            s = cls(values, c['dt'])
+            s = cls(values, dt)
             if how == 'setter' and targets is not None:
                 s.smooth_fa_freqs = targets
             elif how == 'setter_frequencies' and targets is not None:
                 s.smooth_fa_frequencies = targets
             elif how == 'by_range':
-                s.set_smooth_fa_frequecies_by_range(_limits(c['range'], c.get('range_form', 'tuple')), c.get('n_points', 30))
+                s.set_smooth_fa_frequecies_by_range(_limits(c['range'], c.get('range_form', 'tuple')),
+                                                    band_obj(c.get('n_points', 30), c.get('n_points_form', 'py')))
     except Exception as e:      # noqa
         ctx.exception('signal.smooth_fa_spectrum==weighted-mean', _wit('constructor'), e)
         return
@@ -1920,6 +2100,7 @@ def run_signal_case(eqsig, ctx, c):
         return
     v = np.array(held, copy=True)
     rt, scale = _rt_of(s)
+    tg_set = np.array(s._smooth_fa_freqs, copy=True)       # the smoothing frequencies in force from here on (the user's setting)
     # a second object of the same shape is processed while the first result is held
     try:
         other = np.asarray(v_master, dtype=float)[::-1] * 0.75 + np.random.default_rng(c.get('second_seed', 1)).normal(size=len(v_master)) * (scale or 1.0)
@@ -1930,7 +2111,8 @@ def run_signal_case(eqsig, ctx, c):
                       lambda: _wit('state.held-object-result', first=v, now=np.asarray(held)),
                       'the smoothed spectrum held from the first object changed while a second object was processed')
             # f(A) again on a fresh object after B: same values, time step, targets and band -> the same spectrum, bit for bit
-            s3 = cls(values_in_form(c['values'], c.get('values_form')), c['dt'], smooth_fa_freqs=np.array(s.smooth_fa_freqs, copy=True))
+            s3 = cls(values_in_form(c['values'], c.get('values_form')), band_obj(c['dt'], c.get('dt_form', 'py')),
+                     smooth_fa_freqs=np.array(s.smooth_fa_freqs, copy=True))
             s3.gen_smooth_fa_spectrum(band=b_eff)
             third = np.asarray(s3.smooth_fa_spectrum)
             ctx.check(third.shape == v.shape and third.tobytes() == v.tobytes(), 'relation.repeat(A,B,A)==first',
@@ -1938,9 +2120,12 @@ def run_signal_case(eqsig, ctx, c):
                       'a fresh object with the same record, targets and band gave a different smoothed spectrum after another record had been processed')
     except Exception as e:      # noqa
         ctx.exception('state.held-result-unchanged', _wit('second object'), e)
-    # the function form on the object's own cached arrays (zero bin included)
-    _call(ctx, 'smooth==weighted-mean', 'calc_smooth_fa_spectrum', eqsig.calc_smooth_fa_spectrum, s.fa_freqs, s.fa_spectrum,
-          s.smooth_fa_freqs, band=b_eff)
+    # the function form on the object's own cached arrays (zero bin included); its result belongs to the caller: overwriting it
+    # must not reach the spectrum the object holds (judged by the held-result check at the end of the case)
+    ok, fr = _call(ctx, 'smooth==weighted-mean', 'calc_smooth_fa_spectrum', eqsig.calc_smooth_fa_spectrum, s.fa_freqs, s.fa_spectrum,
+                   s.smooth_fa_freqs, band=b_eff)
+    if ok:
+        _scribble(fr)
     # custom-matrix form
     if c.get('matrix') is not None:
         _call(ctx, 'custom-matrix==sum|A_i|M_ij(i>=1)', 'calc_smooth_fa_spectrum_w_custom_matrix',
@@ -1948,6 +2133,8 @@ def run_signal_case(eqsig, ctx, c):
     _konno_custom(eqsig, ctx, s, b_eff, c.get('matrix_form'), style, v, scale, rt)
     if c.get('random_matrix_seed') is not None:
         rm = np.random.default_rng(c['random_matrix_seed']).normal(size=(len(s.fa_freqs) - 1, 1 + c['random_matrix_seed'] % 3))
+        if c.get('matrix_form') == 'bool':
+            rm = rm > 0.3                       # an on/off (boxcar-like) custom filter in numpy's bool dtype
         _call(ctx, 'custom-matrix==sum|A_i|M_ij(i>=1)', 'calc_smooth_fa_spectrum_w_custom_matrix',
               eqsig.calc_smooth_fa_spectrum_w_custom_matrix, s, view_of(rm, c.get('matrix_form') if c.get('matrix_form') != 'f32' else None))
     # bandwidth limits
@@ -1956,7 +2143,8 @@ def run_signal_case(eqsig, ctx, c):
         if c.get('band_fn'):
             fns = {'calc_bandwidth_freqs': ('freqs',), 'calc_bandwidth_f_min': ('f_min',), 'calc_bandwidth_f_max': ('f_max',),
                    'get_sig_freq_range': ('sigrange',)}.get(c['band_fn'], fns)
-        _bandwidth_calls(eqsig, ctx, s, c.get('ratio'), c.get('sig_ratio'), style, fns)
+        _bandwidth_calls(eqsig, ctx, s, c.get('ratio'), c.get('sig_ratio'), style, fns,
+                         forms=(c.get('ratio_form', 'py'), c.get('sig_ratio_form', 'py')))
         if c.get('reject_probes'):
             _probe_rejected(ctx, 'calc_bandwidth_freqs(ratio=1)', eqsig.im.calc_bandwidth_freqs, s, 1)
             _probe_rejected(ctx, 'get_sig_freq_range(ratio=1)', eqsig.get_sig_freq_range, s, 1)
@@ -1964,7 +2152,13 @@ def run_signal_case(eqsig, ctx, c):
     ctx.check(np.asarray(held).tobytes() == v.tobytes(), 'state.held-result-unchanged',
               lambda: _wit('state.held-object-result(end of case)', first=v, now=np.asarray(held)),
               'the smoothed spectrum held by the caller changed during later calls on the same object')
-    bad = [n for n, a, m in (('values', values, v_master), ('targets', targets, t_master)) if not _same(a, m)]
+    # reads, analysis calls and other objects do not change the user's settings
+    now_tg = np.asarray(s._smooth_fa_freqs)
+    ctx.check(now_tg.dtype == tg_set.dtype and now_tg.shape == tg_set.shape and now_tg.tobytes() == tg_set.tobytes(), KEPT,
+              lambda: _wit('signal case: smoothing frequencies at the end', before=tg_set, now=now_tg),
+              'the smoothing frequencies of the object changed during reads / bandwidth / custom-matrix calls (nothing set them)')
+    bad = [n for n, a, m in (('values', values, v_master), ('targets', targets, t_master), ('band', band, b_master), ('dt', dt, dt_master))
+           if not _same(a, m)]
     ctx.check(not bad, 'purity.arguments-unchanged', lambda: _wit('case-level purity', changed=bad),
               'caller arrays %s differ from their values before the first call of the case' % bad)
 
@@ -2003,10 +2197,30 @@ def run_history_case(eqsig, ctx, c):
         except Exception as e:      # noqa  (mutators belong to other properties)
             ctx.observe('history-mutator-raised:%s(%s)' % (name, type(e).__name__))
 
+    def settings_kept(before, name, exempt):
+        """Reads, analysis calls, value mutators, cache operations and copies leave the smoothing frequencies of every live object
+        as they were; only the operations that SET them (on the object they were applied to) are exempt."""
+        for o, snap in before:
+            if o is exempt:
+                continue
+            now = np.asarray(o._smooth_fa_freqs)
+            ctx.check(now.shape == snap.shape and now.dtype == snap.dtype and now.tobytes() == snap.tobytes(), KEPT,
+                      lambda: _wit('history: after %s' % name, before=snap, now=now, on='the object operated on' if o is before[0][0] else 'the other object'),
+                      'operation %r changed the smoothing frequencies of %s (%d -> %d entries)'
+                      % (name, 'the object' if o is before[0][0] else 'the OTHER live object', snap.size, now.size))
+
+    pending = None
     for op in c['ops']:
+        if pending is not None:
+            settings_kept(*pending)            # judged once the previous operation has returned
+            pending = None
         name = op['op']
         if len(np.asarray(s.values)) < 3:
             break
+        before = [(o, np.array(o._smooth_fa_freqs, copy=True)) for o in (s, alt) if o is not None]
+        sets = name in ('set', 'by_range', 'dep_range', 'dep_points') or (name == 'gen' and op.get('targets') is not None) \
+            or (name == 'refused' and op.get('kind') == 'gen-list')
+        pending = (before, name if name != 'twin' else 'twin:' + op.get('how', ''), before[0][0] if sets else None)
         if name == 'read':
             ok, r = _call(ctx, 'signal.smooth_fa_spectrum==weighted-mean', 'Signal.smooth_fa_spectrum', lambda: s.smooth_fa_spectrum)
             if ok:
@@ -2076,6 +2290,8 @@ def run_history_case(eqsig, ctx, c):
             mutate('reset_values', s.reset_values, back)
         elif name in ('gen', 'generate'):
             band = band_obj(op.get('band'), op.get('band_form', 'py'))
+            if isinstance(band, np.ndarray):
+                caller.append((band, _snap(band)))           # a 0-d array is the caller's too
             if name == 'generate':
                 if band is None:
                     _call(ctx, 'signal.gen_smooth==weighted-mean', 'Signal.generate_smooth_fa_spectrum', s.generate_smooth_fa_spectrum)
@@ -2136,7 +2352,7 @@ def run_history_case(eqsig, ctx, c):
         elif name == 'bw':
             if _smooth_ok_for_bandwidth(ctx, s):
                 r = op.get('ratio')
-                _bandwidth_calls(eqsig, ctx, s, r, r, op.get('style', 'kw'), (op['fn'],))
+                _bandwidth_calls(eqsig, ctx, s, r, r, op.get('style', 'kw'), (op['fn'],), forms=(op.get('ratio_form', 'py'),) * 2)
                 ctx.observe('history-op:bw')
         elif name == 'custom':
             rt, scale = _rt_of(s)
@@ -2150,7 +2366,7 @@ def run_history_case(eqsig, ctx, c):
                     _konno_custom(eqsig, ctx, s, 40, op.get('form'), op.get('style'), None, scale, rt)
             else:
                 rm = np.random.default_rng(op['seed']).normal(size=(len(s.fa_freqs) - 1, 1 + op['seed'] % 2))
-                rm = rm.astype(np.float32) if op.get('form') == 'f32' else view_of(rm, op.get('form'))
+                rm = rm.astype(np.float32) if op.get('form') == 'f32' else ((rm > 0.3) if op.get('form') == 'bool' else view_of(rm, op.get('form')))
                 _call(ctx, 'custom-matrix==sum|A_i|M_ij(i>=1)', 'calc_smooth_fa_spectrum_w_custom_matrix',
                       eqsig.calc_smooth_fa_spectrum_w_custom_matrix, s, rm)
             ctx.observe('history-op:custom')
@@ -2178,6 +2394,10 @@ def run_history_case(eqsig, ctx, c):
                             tw = pickle.loads(pickle.dumps(src, protocol=int(step[1:])))
                         adopt(tw, src)                  # harness book-keeping only
                     ctx.observe('protocol:%s(source %s)' % (op['how'], _cache_state(s)))
+                    tg_src, tg_new = np.asarray(s._smooth_fa_freqs), np.asarray(getattr(tw, '_smooth_fa_freqs', None))
+                    ctx.check(tg_new.dtype == tg_src.dtype and tg_new.shape == tg_src.shape and tg_new.tobytes() == tg_src.tobytes(), KEPT,
+                              lambda: _wit('history: %s' % op['how'], before=tg_src, now=tg_new, on='the copy'),
+                              'the %s of an object does not hold the smoothing frequencies of its source' % op['how'])
                     if np.shares_memory(np.asarray(tw.values), np.asarray(s.values)):
                         ctx.observe('protocol-copy-shares-the-value-buffer(%s)' % op['how'])
                     if op['how'] == 'deepcopy+mutate':
@@ -2203,6 +2423,8 @@ def run_history_case(eqsig, ctx, c):
                     alt = tw
             except Exception as e:      # noqa
                 ctx.exception('signal.smooth_fa_spectrum==weighted-mean', _wit('twin construction'), e)
+    if pending is not None:
+        settings_kept(*pending)
     if held:
         bad = [i for i, (r, cp) in enumerate(held) if np.asarray(r).tobytes() != cp.tobytes()]
         ctx.check(not bad, 'state.held-result-unchanged', lambda: _wit('history: held reads', changed_reads=bad),
@@ -2469,7 +2691,9 @@ MIN_EVALS['quick'] = {
     'smooth==weighted-mean & finite (b*|log10(f/fc)| > 308)': 450, 'smooth==weighted-mean & finite (extreme amplitude scale)': 180,
     'purity.arguments-unchanged': 8000, 'purity.signal-state-unchanged': 3500, 'state.held-result-unchanged': 1900,
     # round 3: results depend on the arguments only; the caller's targets are the stored ones; refused operations
-    'relation.repeat(A,B,A)==first': 950, 'targets.stored==given': 280, 'refused-call.object-as-it-was': 60}
+    'relation.repeat(A,B,A)==first': 950, 'targets.stored==given': 280, 'refused-call.object-as-it-was': 60,
+    # round 5: a result belongs to the caller; reads / mutators / copies keep the user's smoothing frequencies
+    'ownership.same-call-after-overwriting-the-result==first': 2700, 'settings.smoothing-frequencies-kept': 3900}
 MIN_EVALS['thorough'] = {k: 18 * v for k, v in MIN_EVALS['quick'].items()}
 LARGE_MIN = {'smooth==weighted-mean(large: target subset)': 15, 'matrix==window/sum(large: target subset)': 5,
              'relation.constant-reproduced(large)': 8, 'relation.scaling-pow2-exact(large)': 8,
